@@ -115,7 +115,7 @@ def run(prog, chk):
     flush = [n for (n, c) in fs.nodes_with_call(name="self.flush")]
     poswrites = fs.nodes(lambda n: n.kind == "stmt" and isinstance(n.ast, (ast.Assign, ast.AugAssign)) and
                          any(t in unparse(n.ast).split("=")[0] for t in ("self._pos", "self._realpos")))
-    ok = len(flush) == 1 and bool(poswrites) and fs.dominated(poswrites, guard_nodes=flush)
+    ok = len(flush) == 1 and bool(poswrites) and fs.dominated(poswrites, guard_nodes=flush, complete=True)
     chk.ob("R3.seek-flushes-before-moving", "SFTPFile.seek", ok, sk.loc, "flush() dominates every position write (pending buffered writes belong to the old position)")
     bad = None
     for whence in (0, 1, 2):
